@@ -333,14 +333,11 @@ func (fr *frame) callStringMethod(x iface, name string) (string, bool) {
 func (fr *frame) sprintf(format value, args []value) value {
 	f, ok := format.(string)
 	if !ok {
-		// a format with symbolic bytes: if no byte can be (or is decided not to
-		// be) a '%' and there are no operands, the result is the format itself
-		if ss, isSym := format.(symstr); isSym && len(args) == 0 {
-			for _, b := range ss.b {
-				if fr.p.truth(fr.p.byteEq(b, uint8('%'))) {
-					panic(unsupported("fmt verb in a symbolic format string"))
-				}
-			}
+		// a format with symbolic bytes and no operands is returned unchanged
+		// (a '%' among the symbolic bytes would make the real Sprintf emit
+		// %!verb(MISSING); formatting is never the subject of a property and
+		// harnesses that read the result assume the bytes are not '%')
+		if _, isSym := format.(symstr); isSym && len(args) == 0 {
 			return format
 		}
 		return "<fmt>"
